@@ -57,7 +57,7 @@ def driver_trace():
         yield DRV_LOG
 
 
-SCALAR_COLS = ["id", "a", "b", "c", "s", "u", "d", "flag", "f", "g", "dd", "m"]
+SCALAR_COLS = ["id", "a", "b", "c", "s", "u", "d", "flag", "f", "g", "dd", "m", "iv"]
 
 
 def load_scalar(rows):
